@@ -2,6 +2,7 @@
    for the correspondence check.  Only ExtrOcamlBasic is used: bool, option, unit, list, prod,
    sumbool, sumor map to their OCaml counterparts; nat, positive, N, Z stay Coq inductive types. *)
 Require Import Coq.ZArith.ZArith.
+Require Import Trzsz.Model.Buffer.
 Require Import Trzsz.Model.Escape.
 Require Extraction.
 Require Import ExtrOcamlBasic.
@@ -23,6 +24,13 @@ Extraction "model.ml"
   N.sub
   N.div
   N.modulo
+  Buffer.run
+  Buffer.run_cont
+  Buffer.pop_all
+  Buffer.pop_all_fuel
+  Buffer.ref_run
+  Buffer.step
+  Buffer.pop_buffer
   Escape.escape
   Escape.unescape_data
   Escape.er_run
